@@ -3,7 +3,7 @@
    glue are cross-checked on every run: bin/check writes a Cases.v with histories and the
    observable lines the real Go code printed (encoded as lists of integers), and evaluates
    `mismatches` here.  Encoding of one trace line: a tag (1 R, 2 S, 3 L, 4 V, 5 ST, 6 DS, 7 IT)
-   followed by the integers of the line; E -> -2, P/panic -> -3, "?" -> -4. *)
+   followed by the integers of the line; E -> -2, P/panic -> -3, "?" -> -4; 8 FL see fl_line. *)
 From Coq Require Import ZArith List Bool Lia.
 From Arsenal Require Import Util Gran Tlsf.
 From Arsenal Require Linear.
@@ -38,6 +38,18 @@ Definition omz (o : option Z) : Z := match o with None => -1 | Some z => z end.
 
 (* ------------------------------------------------------------------ TLSF *)
 
+Fixpoint indexed_from {A} (i : Z) (l : list A) : list (Z * A) :=
+  match l with [] => [] | x :: r => (i, x) :: indexed_from (i + 1) r end.
+
+(* free-list structure, as muh's FL line: 8, first-level bitmap, (class, second-level bitmap)* for the non-zero
+   ones, -1, (list index, length, offsets in list order)* for the non-empty lists *)
+Definition fl_line (t : tlsf) : list Z :=
+  let inner := flat_map (fun cv : Z * N => if (snd cv =? 0)%N then [] else [fst cv; Z.of_N (snd cv)])
+                        (indexed_from 0 (t_inner t)) in
+  let lists := flat_map (fun il : Z * list Z => match snd il with [] => [] | l => fst il :: zlen l :: l end)
+                        (indexed_from 0 (t_lists t)) in
+  [8; Z.of_N (t_bitmap t)] ++ inner ++ [-1] ++ lists.
+
 Record tst := mkTst { ts : tlsf; ttbl : list (Z * (Z * Z)); tnext : Z }.
 
 Definition t_obs (s : tst) : list (list Z) :=
@@ -61,7 +73,8 @@ Definition t_obs (s : tst) : list (list Z) :=
     [5; s_blocks st; s_allocs st; s_block_bytes st; s_alloc_bytes st];
     [6; s_blocks ds; s_allocs ds; s_block_bytes ds; s_alloc_bytes ds; d_unused_count d;
         omz (d_alloc_min d); d_alloc_max d; omz (d_unused_min d); d_unused_max d];
-    7 :: itline ].
+    7 :: itline;
+    fl_line t ].
 
 (* the table is kept sorted by allocation number (new numbers are appended) *)
 Definition t_exec (s : tst) (c : cop) : tst * list Z :=
